@@ -4,6 +4,31 @@ import json, os
 VERIF = os.path.dirname(os.path.abspath(__file__))
 
 CLAIMED = {
+    "C01": {
+        "category": "exploration",
+        "text": "Save/load histories on the simulated file system: a generated library (all element kinds x repetition kinds x transforms x property "
+                "payloads, off-grid coordinates, >8190-vertex polygons, non-simple paths) is saved by write_gds or an incremental GdsWriter "
+                "session, loaded, and re-saved/re-loaded up to 5 more times, under a seeded dirty moving heap, random stdio buffer sizes, "
+                "short device reads, handle pressure and clock moves (benign faults: they must be invisible).  Oracle: canonical integer-grid "
+                "form of the loaded library == the model with exactly the representational changes the property lists; fractured / outlined "
+                "elements by exact area + seeded winding samples; later cycles == cycle 1.  Exploration by seed is the right level: the "
+                "quantifier is over all libraries and histories, nothing finite to enumerate.",
+        "design_ref": "DESIGN.md 5.3",
+        "note": "Trusted: the checker's canonicaliser and model->gdstk builder; the outline of a non-simple path is gdstk's own to_polygons "
+                "(its geometric correctness is C07/C08). One open known finding (F5) is re-demonstrated on every run.",
+        "technique": "deterministic simulation: seeded save/load histories with benign environment faults against a reference model",
+    },
+    "C03": {
+        "category": "exploration",
+        "text": "Two parties exchange files through the simulated disk: an independent GDSII encoder (written from the format description, with "
+                "a seeded vector of legal serialisation choices) produces files that read_gds must load to exactly the encoded layout, and an "
+                "independent strict decoder must accept and correctly decode every file gdstk writes (record framing, data types, element "
+                "grammar, closed boundaries, field ranges, 8-byte reals, timestamps).  Same environment faults as C01.",
+        "design_ref": "DESIGN.md 5.5",
+        "note": "Trusted: the peer codec (self-checked: encoder.decoder identity over all choices, decodes tests/proof_lib.gds); constructs whose "
+                "legality could not be pinned down are not generated (DESIGN.md section 8).",
+        "technique": "deterministic simulation: differential exchange with an independent codec over a simulated disk",
+    },
     "C18": {
         "category": "fault_enumeration",
         "text": "Every reader named by the property is run, under ASan/bounds/null/bool/enum sanitizers with a seeded dirty, always-moving heap, on valid "
@@ -38,7 +63,7 @@ NA = {
     "C20": "Map/Set/TagMap/StyleMap, property lists and sort are sequential data structures never shared between threads; stateful PBT, not simulation.",
 }
 PENDING = {k: "simulation check under construction in this round (see DESIGN.md section 5); not claimed until it exists"
-           for k in ("C01", "C02", "C03", "C04", "C17")}
+           for k in ("C02", "C04", "C17")}
 
 def main():
     checks = []
